@@ -101,6 +101,30 @@ def continuous_cases():
          stats.gamma(2.0, scale=1.0), 2, 256, (0, inf), []),
         ("Normal(0,1)", lambda s: D.DistNormal(s, 0.0, 1.0),
          stats.norm(0.0, 1.0), 2, 256, (-inf, inf), []),
+        # parameters given by keyword
+        ("LogNormal(mu=0.5,sigma=0.4)",
+         lambda s: D.DistLogNormal(s, mu=0.5, sigma=0.4),
+         stats.lognorm(0.4, scale=math.exp(0.5)), 2, 256, (0, inf), []),
+        ("LogNormal(1.5,sigma=0.5)",
+         lambda s: D.DistLogNormal(s, 1.5, sigma=0.5),
+         stats.lognorm(0.5, scale=math.exp(1.5)), 2, 256, (0, inf), []),
+        ("Normal(mu=1,sigma=2)", lambda s: D.DistNormal(s, mu=1.0, sigma=2.0),
+         stats.norm(1.0, 2.0), 2, 256, (-inf, inf), []),
+        ("Gamma(shape=2.5,scale=2)",
+         lambda s: D.DistGamma(s, shape=2.5, scale=2.0),
+         stats.gamma(2.5, scale=2.0), 2, 256, (0, inf), []),
+        ("Weibull(alpha=1.5,beta=2)",
+         lambda s: D.DistWeibull(s, alpha=1.5, beta=2.0),
+         stats.weibull_min(1.5, scale=2.0), 1, 1 << 13, (0, inf), []),
+        ("Exponential(mean=2)", lambda s: D.DistExponential(s, mean=2.0),
+         stats.expon(scale=2.0), 1, 1 << 13, (0, inf), []),
+        ("Erlang(scale=2,k=3)", lambda s: D.DistErlang(s, scale=2.0, k=3),
+         stats.erlang(3, scale=2.0), 3, 48, (0, inf), []),
+        ("Uniform(lo=1,hi=4)", lambda s: D.DistUniform(s, lo=1.0, hi=4.0),
+         stats.uniform(1, 3), 1, 1 << 13, (1, 4), [1.0, 4.0]),
+        ("Pearson5(alpha=2,beta=3)",
+         lambda s: D.DistPearson5(s, alpha=2.0, beta=3.0),
+         stats.invgamma(2.0, scale=3.0), 2, 256, (0, inf), []),
         # parameters given as Python ints (documented: float or int)
         ("Gamma(int 3,4.0)", lambda s: D.DistGamma(s, 3, 4.0),
          stats.gamma(3, scale=4.0), 2, 256, (0, inf), []),
